@@ -62,6 +62,23 @@ fn with_engine<T>(f: impl FnOnce(&mut ChessEngine) -> T) -> Result<T, String> {
     })
 }
 
+/// the plugin built from the tree is there (C11's front-end stage is skipped otherwise)
+pub fn plugin_available() -> bool {
+    Path::new(PLUGIN).exists()
+}
+
+/// one search through the plugin's stable interface: set_board(pos), evaluate(limit expiring at
+/// poll k); returns the proposed move as the host receives it
+pub fn plugin_evaluate(pos: &Pos, k: u64) -> Result<Option<Mv>, String> {
+    let b = to_board(pos)?;
+    with_engine(|e| {
+        e.set_board(b);
+        let t = CountingTimeout::new(k);
+        let (mv, _score) = e.evaluate(&t);
+        mv.map(from_cm)
+    })
+}
+
 struct Model {
     pos: Pos,
     counts: HashMap<Key, u32>,
@@ -400,7 +417,7 @@ fn worker(ctx: &WorkerCtx) -> Result<(), Fail> {
 /// copies of the plugin built from the tree play a few games against each other under the
 /// real host with the engine's own wall-clock limit (1 ms, 3 ms and 0 s per move). The only
 /// verdict is a panic / abort of the host process; slowness and other exit codes are none.
-fn host_stage(st: &mut Stats, tier: Tier) -> Result<(), String> {
+pub fn host_stage(st: &mut Stats, tier: Tier) -> Result<(), String> {
     use std::process::{Command, Stdio};
     let bin = std::env::var("VERIF_CHESS_CLI").unwrap_or_else(|_| "/verif/target/release/chess-cli".to_string());
     if !Path::new(&bin).exists() {
